@@ -268,11 +268,11 @@ Lemma lay_stmt_repeat inrep ce body st :
   lay_stmt inrep (Repeat ce body) st =
   xbind (lev enc alldefs allkeys exports fuel st (l_file st, if inrep then None else Some (l_scope st)) ce) (fun n =>
   xbind (lift (get_as_int None true None n)) (fun n' =>
-  iter_x (Z.to_nat n') (lay_list true body) st)).
+  if 65536 <? n' then XErr ["value-out-of-bounds"] else iter_x (Z.to_nat n') (lay_list true body) st)).
 Proof.
   cbn [Asm.lay_stmt]. destruct (lev enc alldefs allkeys exports fuel st _ ce); simpl; auto.
   destruct (lift (get_as_int None true None a)); simpl; auto.
-  apply iter_x_ext. intros st0. apply lay_body_eq.
+  destruct (65536 <? a0); [reflexivity|]. apply iter_x_ext. intros st0. apply lay_body_eq.
 Qed.
 
 Lemma lay_file_eq body : forall st,
@@ -366,7 +366,7 @@ Proof. induction 1 as [|x r Hx _ IH]; simpl; [constructor|]. destruct x; constru
 Lemma lay_stmt_ext s : stmt_ext s.
 Proof.
   induction s as [ce body IH | own fid body IH | s Hs] using stmt_ind2; intros inrep st st' d H.
-  - rewrite lay_stmt_repeat in H. xinv H.
+  - rewrite lay_stmt_repeat in H. xinv H. destruct (65536 <? a0); [discriminate|].
     destruct (iter_ext _ IH _ _ _ _ H) as [I2 [B2 [cs [L [-> [E F]]]]]]. split; [exact E|]. split; [|auto].
     rewrite map_concat, B2. rewrite <- (app_nil_r (concat _)). constructor; [| |constructor].
     + rewrite map_length, L. apply lift_ok' in Ha0. eexists _, _, _, _. split; [exact Ha|]. split; [exact Ha0|reflexivity].
